@@ -101,6 +101,13 @@ package fat2
 //@   modifies nothing
 //@   loop 1 invariant @none_prefix 0 <= iter && iter <= len(t.Transactions) && (forall k int :: 0 <= k && k < iter ==> !(len(t.Transactions[k].Transfers) == 0 && t.Transactions[k].Conversion == PTickerPEG))
 //@
+//@ // the ticker decoder is called by encoding/json on chain content: it must not panic on any non-empty input
+//@ // (encoding/json never hands an empty value to an Unmarshaler: assumption json_hands_over_a_value)
+//@ func (*PTicker).UnmarshalJSON
+//@   props C08 C20
+//@   requires @json_hands_over_a_value len(data) > 0
+//@   modifies *t
+//@
 //@ // JSON decoding is outside the verified subset (encoding/json): assumed contract.
 //@ func (*TransactionBatch).UnmarshalJSON
 //@   props C20
